@@ -188,8 +188,14 @@ pub fn check_package(opts: PackageInputs) -> Result<InterfaceUnit, CompilationEr
     let mut dep_hashes = BTreeMap::new();
 
     for dep in deps {
-        if dep == "Builtin" || dep == opts.package {
+        if dep == "Builtin" {
             continue;
+        }
+        if dep == opts.package {
+            return Err(compile_error(format!(
+                "package dependency cycle detected: {} -> {}",
+                dep, dep
+            )));
         }
         let unit = load_interface_from_paths(&dep, &opts.interface_paths)?;
         deps_envs.insert(dep.clone(), unit.exports.to_genv());
@@ -222,8 +228,14 @@ pub fn build_package(opts: PackageInputs) -> Result<CoreUnit, CompilationError> 
     let mut dep_units = Vec::new();
 
     for dep in deps {
-        if dep == "Builtin" || dep == opts.package {
+        if dep == "Builtin" {
             continue;
+        }
+        if dep == opts.package {
+            return Err(compile_error(format!(
+                "package dependency cycle detected: {} -> {}",
+                dep, dep
+            )));
         }
         let unit = load_interface_from_paths(&dep, &opts.interface_paths)?;
         deps_envs.insert(dep.clone(), unit.exports.to_genv());
